@@ -134,6 +134,41 @@ class Graph(
     return result
 
 
+def for_loop_headers(graph):
+  """Maps the header node of each for loop in graph to its (For, targets).
+
+  The header node (the CFG node of the iterated expression) also stands for the
+  assignment of the loop target, but that assignment only happens on the edge
+  into the loop body: when the loop exits, the target keeps its previous value.
+  Dataflow analyses use this to treat the two kinds of edges differently.
+
+  Args:
+    graph: Graph
+
+  Returns:
+    Dict[Node, Tuple[ast.For, FrozenSet[qual_names.QN], Set[ast.AST]]], for each
+    header node the loop statement, the symbols bound by the loop target and
+    the set of AST nodes that form the loop body.
+  """
+  result = {}
+  for stmt in graph.stmt_next:
+    if not isinstance(stmt, ast.For) or stmt.iter not in graph.index:
+      continue
+    targets = frozenset(
+        anno.getanno(n, anno.Basic.QN)
+        for n in ast.walk(stmt.target)
+        if isinstance(getattr(n, 'ctx', None), ast.Store) and
+        anno.hasanno(n, anno.Basic.QN))
+    body_nodes = set()
+    for body_stmt in stmt.body:
+      body_nodes.update(ast.walk(body_stmt))
+    if anno.hasanno(stmt, anno.Basic.EXTRA_LOOP_TEST):
+      body_nodes.update(
+          ast.walk(anno.getanno(stmt, anno.Basic.EXTRA_LOOP_TEST)))
+    result[graph.index[stmt.iter]] = (stmt, targets, body_nodes)
+  return result
+
+
 class _WalkMode(enum.Enum):
   FORWARD = 1
   REVERSE = 2
